@@ -338,6 +338,8 @@ def hyb_make(name):
             return H["PH1"](x=10 + n, v=[1.5 + n, 2.5, 3.5], _buffer=buf)
         if name == "PH2":
             return H["PH2"](inner=dict(x=20 + n, v=[float(n), 7.0]), label="lab%d" % n, w=[n, n + 1, n + 2], _buffer=buf)
+        if name == "PH4":
+            return H["PH4"](w=[n, 5, 6, 7], s="s%d" % n, inner=dict(x=40 + n, v=[float(n), 1.0, 2.0]), deep=dict(inner=dict(x=50 + n, v=[3.0]), label="deep%d" % n, w=[n, 9]), k=n, _buffer=buf)
         inner = H["PH1"](x=30 + n, v=[9.0, float(n)], _buffer=buf)
         return H["PH3"](r=inner, k=n, _buffer=buf)
 
@@ -349,6 +351,8 @@ def hyb_read(name, h):
         return dict(x=int(h.x), v=np.asarray(h.v).tolist(), x2=int(h._xobject.x), v2=[float(h._xobject.v[i]) for i in range(len(h._xobject.v))])
     if name == "PH2":
         return dict(inner=hyb_read("PH1", h.inner), label=h.label, s2=h._xobject.s, w=np.asarray(h.w).tolist())
+    if name == "PH4":
+        return dict(w=np.asarray(h.w).tolist(), s=h.s, inner=hyb_read("PH1", h.inner), deep=hyb_read("PH2", h.deep), k=int(h.k))
     r = h.r
     return dict(k=int(h.k), rx=int(r.x), rv=[float(x) for x in np.asarray(r.v if hasattr(r, "_xobject") else r.v.to_nparray())])
 
@@ -361,6 +365,12 @@ def hyb_write(name, h, n):
         h.inner.x = 2000 + n
         h.w[1] = 77
         h.label = "L%d" % (n % 10)
+    elif name == "PH4":
+        h.inner.x = 4000 + n
+        h.inner.v[1] = 0.5
+        h.deep.inner.x = 4100 + n
+        h.deep.label = "D%d" % (n % 10)
+        h.w[0] = 44
     else:
         h.k = 3000 + n
         h.r.x = 3100 + n
